@@ -112,10 +112,17 @@ def run(res, tier, seed):
                     ls.insert(rng.randrange(1, len(ls)), "    " + rng.choice(
                         ["mul a0, a0", ".bogus 3", "foo a0, a1", "addi a0, a0, 99999999999", "li a0, 1 +"]))
                 s = "\n".join(ls)
+        if j == 1:
+            # one kind of diagnostic on different instruction kinds (a store and loads at and above the entry
+            # stack pointer): its severity belongs to the kind, not to the instruction
+            s = ("main:\n    li t0, 1\n    sw t0, 4(sp)\n    lw t1, 8(sp)\n    lb t2, 0(sp)\n    add a0, t1, t2\n    jal f\n"
+                 "    li a7, 10\n    ecall\nf:\n    addi sp, sp, -8\n    lw t3, 8(sp)\n    sh t3, 12(sp)\n    mv a0, t3\n    addi sp, sp, 8\n    ret\n")
         s = "".join(ch for ch in s if ord(ch) < 128 or ch == "é")
+        if j == 2:
+            s = "\ufeff" + s          # a file saved with a byte order mark: every channel sees the same first line
         d = os.path.join(root, str(j))
         os.makedirs(d, exist_ok=True)
-        multi = rng.random() < 0.3 and ".include" not in s and j != 0
+        multi = rng.random() < 0.3 and ".include" not in s and j not in (0, 1, 2)
         if multi:
             files, mapping = split_tree(rng, s.rstrip("\n").split("\n"))
             for name, lines in files.items():
